@@ -107,6 +107,8 @@ type ExtSpec struct {
 	PurlType string `json:"purl_type,omitempty"` // purl type of its packages (default "generic")
 	Partial  bool   `json:"partial,omitempty"`   // on a read error: return what was built so far together with the error
 	Buf      int    `json:"buf,omitempty"`       // read buffer size (default 64)
+	FailOn   *Pred  `json:"fail_on,omitempty"`   // Extract returns an error (and nothing else) for files matching this
+	ExtraLoc bool   `json:"extra_loc,omitempty"` // packages carry a second location, emitted in non-lexical order
 }
 
 // ExtractRec records one Extract call as seen at the plugin seam.
@@ -215,8 +217,12 @@ func makePkgs(spec *ExtSpec, filePath string, dig string, n int) []*extractor.Pa
 		default:
 			ver = "0." + dig
 		}
+		locs := []string{filePath}
+		if spec.ExtraLoc {
+			locs = []string{filePath, "0aux/" + spec.Name}
+		}
 		out = append(out, &extractor.Package{
-			Name: name, Version: ver, Locations: []string{filePath},
+			Name: name, Version: ver, Locations: locs,
 			Metadata: &pkgMeta{Digest: dig, Idx: i, NoPURL: spec.NoPURL && i%2 == 1, Type: pkgPurlType(spec.PurlType)},
 		})
 	}
@@ -243,7 +249,7 @@ func (e *simExtractor) Extract(ctx context.Context, input *filesystem.ScanInput)
 		rec.InfoSize = input.Info.Size()
 		rec.InfoMode = input.Info.Mode().String()
 	}
-	rec.SeqBegin = e.probe.Rec.Add("extract-begin", rec.Root+":"+input.Path, e.spec.Name, "")
+	rec.SeqBegin = e.probe.Rec.Add("extract-begin", labelled(rec.Root, input.Path), e.spec.Name, "")
 	e.probe.Extracts = append(e.probe.Extracts, rec)
 	bufN := e.spec.Buf
 	if bufN <= 0 {
@@ -265,6 +271,12 @@ func (e *simExtractor) Extract(ctx context.Context, input *filesystem.ScanInput)
 	rec.Bytes = len(content)
 	rec.Digest = digest(content)
 	var inv inventory.Inventory
+	if e.spec.FailOn != nil && rerr == nil && e.spec.FailOn.Eval(input.Path, func() (int64, bool, error) { return int64(len(content)), false, nil }) {
+		rerr = errors.New("scenario-defined parse failure")
+		rec.Err = rerr.Error()
+		rec.SeqEnd = e.probe.Rec.Add("extract-end", labelled(rec.Root, input.Path), e.spec.Name, "pkgs=0 err=true")
+		return inv, fmt.Errorf("sim extractor %s: %s: %w", e.spec.Name, input.Path, rerr)
+	}
 	if rerr == nil || e.spec.Partial {
 		inv.Packages = makePkgs(e.spec, input.Path, rec.Digest, e.spec.NPkgs)
 	}
@@ -276,7 +288,7 @@ func (e *simExtractor) Extract(ctx context.Context, input *filesystem.ScanInput)
 		rec.Err = rerr.Error()
 		rerr = fmt.Errorf("sim extractor %s: read %s: %w", e.spec.Name, input.Path, rerr)
 	}
-	rec.SeqEnd = e.probe.Rec.Add("extract-end", rec.Root+":"+input.Path, e.spec.Name, fmt.Sprintf("pkgs=%d err=%v", rec.NPkgs, rerr != nil))
+	rec.SeqEnd = e.probe.Rec.Add("extract-end", labelled(rec.Root, input.Path), e.spec.Name, fmt.Sprintf("pkgs=%d err=%v", rec.NPkgs, rerr != nil))
 	return inv, rerr
 }
 
@@ -364,9 +376,9 @@ func (d *simDetector) Scan(ctx context.Context, root *scalibrfs.ScanRoot, px *pa
 	for _, f := range d.spec.Findings {
 		fd := &detector.Finding{Extra: f.Extra}
 		if !f.NoAdv {
-			adv := &detector.Advisory{Type: detector.TypeVulnerability, Title: fmt.Sprintf("title-%s-%d", f.Ref, f.Body), Sev: &detector.Severity{Severity: detector.SeverityHigh}}
-			if !f.NoID {
-				adv.ID = &detector.AdvisoryID{Publisher: "SIM", Reference: f.Ref}
+			adv := advisoryVariant(f.Ref, f.Body)
+			if f.NoID {
+				adv.ID = nil
 			}
 			fd.Adv = adv
 		}
@@ -394,4 +406,63 @@ func (c *collector) AfterDetectorRun(name string, _ time.Duration, err error) {
 }
 func (c *collector) AfterScan(_ time.Duration, st *plugin.ScanStatus) {
 	c.rec.Add("after-scan", "", "", fmt.Sprint(st.Status))
+}
+
+func labelled(root, p string) string {
+	if root == "" {
+		return p
+	}
+	return root + ":" + p
+}
+
+// advisoryVariant builds the advisory for a reference; variants differ from variant 0 in
+// exactly one (possibly nested) field.
+func advisoryVariant(ref string, v int) *detector.Advisory {
+	adv := &detector.Advisory{
+		ID:   &detector.AdvisoryID{Publisher: "SIM", Reference: ref},
+		Type: detector.TypeVulnerability, Title: "title-" + ref, Description: "desc-" + ref, Recommendation: "rec-" + ref,
+		Sev: &detector.Severity{Severity: detector.SeverityHigh, CVSSV2: &detector.CVSS{BaseScore: 5}, CVSSV3: &detector.CVSS{BaseScore: 7, TemporalScore: 6}},
+	}
+	switch v {
+	case 1:
+		adv.Title += "-v1"
+	case 2:
+		adv.Description += "-v2"
+	case 3:
+		adv.Recommendation += "-v3"
+	case 4:
+		adv.Sev.Severity = detector.SeverityLow
+	case 5:
+		adv.Sev.CVSSV3.BaseScore = 9.5
+	case 6:
+		adv.Type = detector.TypeCISFinding
+	case 7:
+		adv.Sev = nil
+	case 8:
+		adv.Sev.CVSSV2.EnvironmentalScore = 1
+	case 9:
+		adv.ID.Publisher = "OTHER"
+	}
+	return adv
+}
+
+func advisoryString(a *detector.Advisory) string {
+	if a == nil {
+		return "<nil>"
+	}
+	id := "<nil>"
+	if a.ID != nil {
+		id = a.ID.Publisher + "/" + a.ID.Reference
+	}
+	sev := "<nil>"
+	if a.Sev != nil {
+		sev = fmt.Sprintf("%d", a.Sev.Severity)
+		if a.Sev.CVSSV2 != nil {
+			sev += fmt.Sprintf("/v2:%v", *a.Sev.CVSSV2)
+		}
+		if a.Sev.CVSSV3 != nil {
+			sev += fmt.Sprintf("/v3:%v", *a.Sev.CVSSV3)
+		}
+	}
+	return fmt.Sprintf("%s|%d|%s|%s|%s|%s", id, a.Type, a.Title, a.Description, a.Recommendation, sev)
 }
